@@ -135,7 +135,8 @@ def drop_zero_sparse(doc):
         return doc
     out = {}
     for k, v in doc.items():
-        if k == "bins" and isinstance(v, dict):
+        if k == "bins" and isinstance(v, dict) and "bins:type" in doc:
+            # (the sibling "bins:type" tells a sparse container's map from a Label member that is called "bins")
             kept = {}
             for key, frag in v.items():
                 e = frag if not isinstance(frag, dict) else frag.get("entries")
